@@ -54,6 +54,16 @@ Check (C09_rows_once : forall t cols start len, NoDup (map fst (zip_items cols s
   zip_items cols start len t = map (fun r => (r, map (fun c => nth r c 0%N) cols)) (seq start len)).
 Print Assumptions C09_rows_once.
 
+(** The same with RepeatNone among the zipped producers, each split by its own split_at: when every
+    producer has the archetype's length, any splitting hands out exactly one row per index (None in
+    the positions of an absent optional component). *)
+Theorem C09_zip_with_repeat_none : forall t cols len, (forall c, In c cols -> pcol_len c = len) ->
+  pzip_items cols len t = whole_rows cols len.
+Proof. exact pzip_items_rows. Qed.
+Check (C09_zip_with_repeat_none : forall t cols len, (forall c, In c cols -> pcol_len c = len) ->
+  pzip_items cols len t = whole_rows cols len).
+Print Assumptions C09_zip_with_repeat_none.
+
 Example C09_example :
   repeat_none_items 5 (INodeN 2 ILeafN (INodeN 9 ILeafN ILeafN)) = [None; None; None; None; None] /\
   map fst (zip_items [[7%N; 8%N; 9%N]] 0 3 (INodeN 1 ILeafN (INodeN 1 ILeafN ILeafN))) = [0; 1; 2].
